@@ -63,8 +63,23 @@ func ruleValidCoupling(p *Prog, r *Report) {
 				return
 			}
 			isValidator := isCallTo(&c.Call, "encoding/xml.NewDecoder")
-			if g := staticCallee(&c.Call); g != nil && p.InModule(g) && (p.Name(g) == "mxj.NewMapXml" || p.Name(g) == "mxj.NewMapXmlSeq") {
-				isValidator = true
+			if g := staticCallee(&c.Call); g != nil && p.InModule(g) && len(c.Call.Args) > 0 {
+				// a module function that decodes its argument: NewMapXml / NewMapXmlSeq, or a helper that runs an xml.Decoder over it
+				if p.Name(g) == "mxj.NewMapXml" || p.Name(g) == "mxj.NewMapXmlSeq" {
+					isValidator = true
+				} else if !p.Exported(g) {
+					for h := range p.Reach(g) {
+						if !p.InModule(h) && (extName(h) == "(*encoding/xml.Decoder).Token" || extName(h) == "(*encoding/xml.Decoder).RawToken") {
+							isValidator = true
+						}
+					}
+					// the recursive encoders also reach nothing of the kind; exclude functions that receive the accumulator itself
+					for _, a := range c.Call.Args {
+						if isOutputSinkType(a.Type()) {
+							isValidator = false
+						}
+					}
+				}
 			}
 			if !isValidator {
 				return
@@ -210,8 +225,8 @@ func rulePairSeq(p *Prog, r *Report) {
 	if nSeq < 6 {
 		r.Add(&Ob{Rule: rule + ".floor", Func: n, Construct: "instances<6", Status: Undecided, Why: fmt.Sprintf("only %d sequence-number stores found (elements, text, comments, directives, processing instructions: at least 6 expected)", nSeq)})
 	}
-	if nAttr < 2 {
-		r.Add(&Ob{Rule: rule + ".floor", Func: n, Construct: "attributes<2", Status: Undecided, Why: fmt.Sprintf("only %d attribute numbering sites found", nAttr)})
+	if nAttr < 1 {
+		r.Add(&Ob{Rule: rule + ".floor", Func: n, Construct: "attributes<1", Status: Undecided, Why: "no attribute numbering site found"})
 	}
 	// encoder: the child collection loop skips exactly the attribute and sequence keys
 	enc := p.Fn("mxj.mapToXmlSeqIndent")
